@@ -57,6 +57,13 @@ def tasks(tier):
         ts.append(("element derivatives of %s" % cn, "run_included", dict(
             modname="c04", fname="run_class", kwargs=dict(modname=mn, clsname=cn, lagrange=None), oid="C06.O9", select_oid=["C04.O1", "C04.O2"],
             why="the cached dhdX / d2hdXdX push forward the element's gradient / hessian: they have to be the exact derivatives of the element's shape functions for the polynomial-reproduction clause")))
+    # boundary-region templates evaluate the volume element on a *rotated copy* of each boundary cell (so that the face is the facet
+    # xi_last = -1): gradients and hessians of fields on them are those of the field only if the rotated cell is a proper rotation of the
+    # reference cell, node by node (a swapped pair of mid-nodes leaves dV, dA and linear fields intact and corrupts quadratic ones)
+    from . import c13
+    for ct, fn, el_, n_ in c13.TABLES:
+        ts.append(("boundary cells %s" % ct, "run_included", dict(modname="c13", fname="run_table", kwargs=dict(cell_type=ct, fname=fn, elname=el_, nnodes=n_), oid="C06.O10", select_oid="C13.O1",
+                                                                why="Field.grad() / hess() on a boundary-region template reproduce polynomials up to the element order only if every node of the rotated boundary cell sits where the element expects it")))
     ts.append(("fields", "run_fields", {}))
     ts.append(("templates", "run_templates", dict(tier=tier)))
     return ts
@@ -65,9 +72,15 @@ def tasks(tier):
 class OpaqueElement:
     """an element given by symbolic reference values H[a,q], gradients D[a,K,q] (summing to zero over a) and hessians"""
 
-    def __init__(self, na, dim, nq):
+    def __init__(self, na, dim, nq, numeric_D=False):
         self.H = symarray("H", (na, nq))
         self.D = symarray("D", (na, dim, nq))
+        if numeric_D:
+            # fixed rational first derivatives (generic, no symmetry): keeps the inverse Jacobian a rational function of the point coordinates only
+            for a in range(na):
+                for K in range(dim):
+                    for q in range(nq):
+                        self.D[a, K, q] = P(Fraction(1 + ((7 * a + 3 * K + 5 * q + a * K) % 11), 2 + ((a + 2 * K + 3 * q) % 5)) * (1 if (a + K + q) % 3 else -1))
         for K in range(dim):
             for q in range(nq):
                 self.D[na - 1, K, q] = -sum((self.D[a, K, q] for a in range(na - 1)), ZERO)
@@ -75,6 +88,11 @@ class OpaqueElement:
         for K in range(dim):
             for L in range(K):
                 self.H2[:, K, L, :] = self.H2[:, L, K, :]
+        # second derivatives of a partition of unity sum to zero as well
+        for K in range(dim):
+            for L in range(dim):
+                for q in range(nq):
+                    self.H2[na - 1, K, L, q] = -sum((self.H2[a, K, L, q] for a in range(na - 1)), ZERO)
         self.dim = dim
         self.cell_type = "opaque"
 
@@ -96,14 +114,14 @@ class QPoints:
         self.dim = dim
 
 
-def make_region(it, d, na, nq, ncells, hess=False, uniform=False, shared=True):
+def make_region(it, d, na, nq, ncells, hess=False, uniform=False, shared=True, numeric_D=False):
     if ncells == 2:
         cells = [list(range(na)), [na - 1] + list(range(na, 2 * na - 1))] if shared else [list(range(na)), list(range(na, 2 * na))]
     else:
         cells = [list(range(na))]
     npts = max(max(c) for c in cells) + 1
     mesh = micro.FakeMesh(cells, npts, d)
-    el = OpaqueElement(na, d, nq)
+    el = OpaqueElement(na, d, nq, numeric_D=numeric_D)
     qd = QPoints(nq, d)
     cls = it.get("felupe.region._region:Region")
     own = ring.ORDER_ORACLE[0] is None
@@ -121,7 +139,9 @@ def make_region(it, d, na, nq, ncells, hess=False, uniform=False, shared=True):
 def run_reload(col, d):
     it = new_interp()
     na, nq, nc = d + 1, 2, 2
-    reg, mesh, el, qd = make_region(it, d, na, nq, nc, hess=True)
+    # d = 3: the geometry obligations on the fully symbolic region (no hessian), the second-derivative obligations further down on a region whose
+    # element has fixed rational first derivatives (the exact push-forward with a fully symbolic 3x3 inverse Jacobian exceeds the budget)
+    reg, mesh, el, qd = make_region(it, d, na, nq, nc, hess=(d < 3))
     w = method_where(it.get("felupe.region._region:Region"), "reload")
     h = it.getattr(reg, "h")
     dhdr = it.getattr(reg, "dhdr")
@@ -129,7 +149,6 @@ def run_reload(col, d):
     drdX = it.getattr(reg, "drdX")
     dV = it.getattr(reg, "dV")
     dhdX = it.getattr(reg, "dhdX")
-    d2 = it.getattr(reg, "d2hdXdX")
     X = mesh.points
     col.add("C06.O1", "Region.h d=%d" % d, "h[a,q,0] == element.function(q)[a], size-one cell axis",
             h.shape == (na, nq, 1) and all(is_zero(P(h[a, q, 0]) - el.H[a, q]) for a in range(na) for q in range(nq)), w)
@@ -166,19 +185,45 @@ def run_reload(col, d):
                     bad0.append((J, q, c))
     col.add("C06.O1", "Region.dhdX linear reproduction d=%d" % d, "sum_a X[a,I] dhdX[a,J] == delta_IJ on an arbitrarily distorted cell (gradient of a linear field is exact)", not bad1, "%s: %s" % (w, bad1[:5]))
     col.add("C06.O1", "Region.dhdX constant reproduction d=%d" % d, "sum_a dhdX[a,J] == 0 (gradient of a constant field vanishes)", not bad0, "%s: %s" % (w, bad0[:5]))
-    bad = []
+    if d == 3:
+        reg, mesh, el, qd = make_region(it, d, na, nq, 1, hess=True, numeric_D=True)
+        nc = 1
+        X = mesh.points
+        drdX = it.getattr(reg, "drdX")
+        dhdX = it.getattr(reg, "dhdX")
+    d2 = it.getattr(reg, "d2hdXdX")
+    # second derivatives w.r.t. the undeformed coordinates on an arbitrarily distorted (non-affine) cell: h(r(X)),
+    #   d2h/dX_K dX_L = (d2h/dr_I dr_J - dh/dX_M d2X_M/dr_I dr_J) dr_I/dX_K dr_J/dX_L   with d2X_M/drdr = sum_b X[b,M] d2h_b/drdr
+    # (the second term vanishes on affine cells).  Consequences checked separately: the hessian of a constant and of a linear field vanishes.
+    bad, badc, badl = [], [], []
     for c in range(nc):
         for q in range(nq):
+            d2X = np.empty((d, d, d), dtype=object)
+            for M_ in range(d):
+                for I in range(d):
+                    for J in range(d):
+                        d2X[M_, I, J] = sum((X[mesh.cells[c, b], M_] * el.H2[b, I, J, q] for b in range(na)), ZERO)
             for a in range(na):
                 for K in range(d):
                     for L in range(d):
                         acc = ZERO
                         for I in range(d):
                             for J in range(d):
-                                acc = acc + el.H2[a, I, J, q] * P(drdX[I, K, q, c]) * P(drdX[J, L, q, c])
+                                core = el.H2[a, I, J, q] - sum((P(dhdX[a, M_, q, c]) * d2X[M_, I, J] for M_ in range(d)), ZERO)
+                                acc = acc + core * P(drdX[I, K, q, c]) * P(drdX[J, L, q, c])
                         if not is_zero(P(d2[a, K, L, q, c]) - acc):
                             bad.append((a, K, L, q, c))
-    col.add("C06.O2", "Region.d2hdXdX d=%d" % d, "d2hdXdX[a,K,L] == d2h/drdr[a,I,J] drdX[I,K] drdX[J,L] (exact second derivatives on affine cells)", not bad, "%s: %s" % (w, bad[:5]))
+            for K in range(d):
+                for L in range(d):
+                    if not is_zero(sum((P(d2[a, K, L, q, c]) for a in range(na)), ZERO)):
+                        badc.append((K, L, q, c))
+                    for M_ in range(d):
+                        if not is_zero(sum((X[mesh.cells[c, a], M_] * P(d2[a, K, L, q, c]) for a in range(na)), ZERO)):
+                            badl.append((M_, K, L, q, c))
+    col.add("C06.O2", "Region.d2hdXdX d=%d" % d, "d2hdXdX[a,K,L] == (d2h_a/drdr[I,J] - dhdX[a,M] d2X_M/drdr[I,J]) drdX[I,K] drdX[J,L]: the exact second derivative of h(r(X)) on a distorted cell (the geometry term vanishes on affine cells)",
+            not bad, "%s: %s" % (w, bad[:5]))
+    col.add("C06.O2", "Region.d2hdXdX constant reproduction d=%d" % d, "sum_a d2hdXdX[a,K,L] == 0 (hessian of a constant field vanishes)", not badc, "%s: %s" % (w, badc[:5]))
+    col.add("C06.O2", "Region.d2hdXdX linear reproduction d=%d" % d, "sum_a X[a,M] d2hdXdX[a,K,L] == 0 on an arbitrarily distorted cell (the hessian of a linear field vanishes)", not badl, "%s: %s" % (w, badl[:5]))
     finish_info(col, it)
 
 
